@@ -40,6 +40,48 @@ func c18Key(r *gen.Rand, prevLong bool) []byte {
 	}
 }
 
+// c18Sibling returns a different key of the same length that agrees with k in what a cheap fingerprint would look at:
+// same CRC-32 (the last four bytes are solved for), or same first/last bytes, or one bit apart.
+func c18Sibling(r *gen.Rand, k []byte) []byte {
+	s := append([]byte(nil), k...)
+	switch {
+	case len(k) >= 5 && r.Chance(2, 3):
+		r.Fill(s[:len(s)-4])
+		// register after the prefix
+		reg := ^uint32(0)
+		for _, x := range s[:len(s)-4] {
+			reg ^= uint32(x)
+			for b := 0; b < 8; b++ {
+				if reg&1 == 1 {
+					reg = reg>>1 ^ 0xEDB88320
+				} else {
+					reg >>= 1
+				}
+			}
+		}
+		// the register the whole key must end in, run backwards over four zero bytes
+		f := ^ref.CRC32(k)
+		for b := 0; b < 32; b++ {
+			if f&0x80000000 != 0 {
+				f = (f^0xEDB88320)<<1 | 1
+			} else {
+				f <<= 1
+			}
+		}
+		x := reg ^ f
+		s[len(s)-4], s[len(s)-3], s[len(s)-2], s[len(s)-1] = byte(x), byte(x>>8), byte(x>>16), byte(x>>24)
+		if ref.CRC32(s) != ref.CRC32(k) {
+			fatalHarness("C18: CRC-32 sibling construction is wrong")
+		}
+	case len(k) >= 3 && r.Bool():
+		r.Fill(s[1 : len(s)-1]) // same first and last byte
+	case len(k) >= 1:
+		s[r.Intn(len(s))] ^= 1 << uint(r.Intn(8))
+	}
+
+	return s
+}
+
 // c18Program runs acquire(key), write*, sum, [reset, write*, sum]*, put against crypto/hmac.
 // Returns the number of digests compared, and a description on mismatch.
 func c18Program(r *gen.Rand, seen map[uintptr]int) (digests int, steps []string, bad string) {
@@ -48,8 +90,12 @@ func c18Program(r *gen.Rand, seen map[uintptr]int) (digests int, steps []string,
 	// callers often keep ONE key buffer and overwrite it in place (e.g. an MD5 sum into a scratch slice)
 	shared := make([]byte, 0, 320)
 	reuseBuffer := r.Chance(1, 3)
+	var prevKey []byte
 	for round := 1 + r.Intn(4); round > 0; round-- {
 		key := c18Key(r, prevLong)
+		if prevKey != nil && r.Chance(1, 3) {
+			key = c18Sibling(r, prevKey)
+		}
 		if reuseBuffer {
 			if r.Bool() && len(shared) > 0 {
 				// same length as last time, different content
@@ -60,6 +106,7 @@ func c18Program(r *gen.Rand, seen map[uintptr]int) (digests int, steps []string,
 			key = shared
 		}
 		prevLong = len(key) > 64
+		prevKey = append([]byte(nil), key...)
 		var h hash.Hash
 		name := "sha1"
 		if sha256 {
@@ -114,9 +161,15 @@ func c18Program(r *gen.Rand, seen map[uintptr]int) (digests int, steps []string,
 				}
 			}
 			if r.Bool() {
-				h.Reset()
+				n := 1
+				if r.Chance(1, 8) {
+					n = 14 + r.Intn(30) // an object that is reset over and over inside one acquisition
+				}
+				for ; n > 0; n-- {
+					h.Reset()
+					steps = append(steps, "reset")
+				}
 				msg = msg[:0]
-				steps = append(steps, "reset")
 			}
 		}
 		if sha256 {
